@@ -47,6 +47,13 @@ def _lock_helper(conn, path):
             l = locks[h] = fasteners.InterProcessLock(path)
         if op == "acq":
             conn.send(bool(l.acquire(blocking=False)))
+        elif op == "unlink":
+            # the lock file is removed (the locks held on it stay: they belong to the open file, not to the path)
+            try:
+                os.unlink(path)
+                conn.send("unlinked")
+            except FileNotFoundError:
+                conn.send("absent")
         elif op == "rw":
             # a plain open + close of the lock file (e.g. Path.read_text / write_text) by this process
             try:
@@ -76,7 +83,7 @@ def check_locks(maxlen=4):
         p.start()
         procs[name] = (p, a)
     actors = [("A", 1), ("A", 2), ("B", 1)]
-    symbols = [(a, op) for a in actors for op in ("acq", "rel")] + [(("A", 1), "rw")]
+    symbols = [(a, op) for a in actors for op in ("acq", "rel")] + [(("A", 1), "rw"), (("A", 1), "unlink")]
     n, bad = 0, []
     try:
         for length in range(1, maxlen + 1):
@@ -84,22 +91,41 @@ def check_locks(maxlen=4):
                 for _, c in procs.values():
                     c.send(("reset", 0))
                     c.recv()
-                # model: path -> owning pid; per lock object an `acquired` flag (as fasteners keeps one)
-                owner = None
+                if os.path.exists(path):
+                    os.unlink(path)
+                # model (the one of engines/vworld.PosixLockTable): a lock belongs to the FILE (generation of the path) that the handle
+                # has open - fasteners opens it at the first acquire() and closes it at release() - and to the process; per lock
+                # object an `acquired` flag (as fasteners keeps one)
+                gen_of_path = None           # generation currently reachable through the path (None: no file)
+                gens = 0
+                owner = {}                   # generation -> owning process
+                hfile = {}                   # (proc, handle) -> generation it has open
                 flags = {}
                 real, model = [], []
                 for (proc, h), op in seq:
                     c = procs[proc][1]
                     c.send((op, h))
                     real.append(c.recv())
-                    if op == "rw":
+                    if op == "unlink":
+                        model.append("unlinked" if gen_of_path is not None else "absent")
+                        gen_of_path = None
+                    elif op == "rw":
                         # POSIX record locks: closing ANY descriptor of the file drops the locks the process holds on it
-                        if owner == proc:
-                            owner = None
+                        if gen_of_path is None:
+                            gens += 1
+                            gen_of_path = gens
+                        if owner.get(gen_of_path) == proc:
+                            owner[gen_of_path] = None
                         model.append("rw")
                     elif op == "acq":
-                        if owner is None or owner == proc:
-                            owner = proc
+                        g = hfile.get((proc, h))
+                        if g is None:
+                            if gen_of_path is None:
+                                gens += 1
+                                gen_of_path = gens
+                            g = hfile[(proc, h)] = gen_of_path
+                        if owner.get(g) is None or owner.get(g) == proc:
+                            owner[g] = proc
                             flags[(proc, h)] = True
                             model.append(True)
                         else:
@@ -107,12 +133,10 @@ def check_locks(maxlen=4):
                     else:
                         if flags.get((proc, h)):
                             flags[(proc, h)] = False
-                            # POSIX: releasing through any handle drops the lock of the whole process
-                            if owner == proc:
-                                owner = None
-                            for k in list(flags):
-                                if k[0] == proc:
-                                    pass
+                            g = hfile.pop((proc, h))
+                            # POSIX: releasing (and closing) through any handle drops the lock of the whole process on that file
+                            if owner.get(g) == proc:
+                                owner[g] = None
                             model.append(True)
                         else:
                             model.append(None)
